@@ -255,3 +255,10 @@ def mk_tuple(vals):
 def tuple_get(v, i):
     s = sort_of(v.t)
     return Val(v.t.elems[i], s.accessor(0, i)(v.e))
+
+
+def z3_unescape(text):
+    """z3 prints the characters outside printable ASCII of a string value as \\u{hex}: back to the characters
+    (needed before a counter-model or a language witness is replayed on the real code)."""
+    import re as _re
+    return _re.sub(r'\\u\{([0-9a-fA-F]{1,6})\}', lambda m: chr(int(m.group(1), 16)), text)
